@@ -135,6 +135,9 @@ func checkBuild(w WS, o BuildOpts, p Prediction, res Result, sb *Sandbox, expect
 			timeouts = true // a killed command leaves no end marker: the running count is then only an upper bound
 		}
 	}
+	if maxRunning >= workers && len(p.Selected) > workers {
+		obs.NonTrivial["workers-saturated"] = true
+	}
 	if maxRunning > workers && !timeouts && !cancelled {
 		return pbt.Fail(sig("C03", "too-many-concurrent-commands"), "%d commands were running at once with num_workers=%d%s", maxRunning, workers, tail())
 	}
@@ -423,6 +426,14 @@ func RunHistory(h History, bin string, orc Oracles) (*Observation, error) {
 			}
 			obs.Log = append(obs.Log, fmt.Sprintf("#%d taint %s", i, pattern))
 			obs.Classes["taint"] = true
+		case st.Kind == "relocate":
+			dest := filepath.Join(sb.Base, fmt.Sprintf("moved-%d", i), pickStr([]string{"ws", "checkout", "some dir/ws"}, st.V))
+			if err := sb.Relocate(dest); err != nil {
+				return obs, fmt.Errorf("harness: %w", err)
+			}
+			obs.Log = append(obs.Log, fmt.Sprintf("#%d relocate checkout and its cache directory to %s", i, dest))
+			obs.Classes["relocate"] = true
+			perturbedSinceBuild = true
 		case st.Kind == "fault-wipe-cas":
 			sb.WipeCas(w)
 			if sbMin != nil {
